@@ -27,12 +27,13 @@ Definition ends (C : list instr) (c : nat * shape) : Prop :=
    every path, nothing is discarded that the path did not create, the pc stays inside the
    stream, every end is reached with scope, capture and auto-escape depth as at entry and an
    empty operand stack, and the shape at a program point does not depend on the path taken (so
-   text after a construct is written to the same target whatever happened inside it). *)
+   text after a construct is written to the same target whatever happened inside it) - up to
+   [core]: whether a conditional `extends` has silenced the output. *)
 Definition balanced (C : list instr) (entries : list (nat * shape)) : Prop :=
   forall e c, In e entries -> astar C e c ->
     ~ stuck C c /\ fst c <= length C /\ (ends C c -> final_ok (snd c) = true) /\
     (forall e' c', In e' entries -> astar C e' c' -> fst c' = fst c -> fst c < length C ->
-       snd c' = snd c).
+       core (snd c') = core (snd c)).
 
 (* ---- the real machine: recursion calls enter the loop, PopLoopFrame returns ---- *)
 
